@@ -272,6 +272,25 @@ def attempt(repo, gen_dir, seed, rlimit, threads, verbose, force_external):
             f['class'] = 'unsupported'
         f['rendered'] = (d.get('rendered') or '')[:1500]
         failures.append(f)
+    # a lemma of the specification library that runs out of resource limit is retried alone with a tenfold limit: the limit is a
+    # property of the whole query context (it moves when unrelated code changes), and a library lemma that does not verify makes
+    # every property undecided. A lemma that still fails is reported as before.
+    retried = []
+    for f in list(failures):
+        if f['class'] == 'rlimit' and (f.get('fn') or '').startswith('spec::') and len(retried) < 8:
+            name = f['fn'][6:]
+            cmd2 = ['verus', os.path.basename(genfile), '--output-json', '--verify-root', '--verify-function', name,
+                    '--rlimit', str(rlimit * 10), '--smt-option', 'smt.random_seed=%d' % seed, '--no-report-long-running']
+            p2 = subprocess.run(cmd2, cwd=gen_dir, capture_output=True, text=True)
+            try:
+                vr2 = json.loads(p2.stdout).get('verification-results', {})
+            except Exception:
+                vr2 = {}
+            ok2 = vr2.get('verified', 0) >= 1 and vr2.get('errors', 1) == 0
+            retried.append({'lemma': name, 'rlimit': rlimit * 10, 'verified': ok2})
+            if ok2:
+                failures.remove(f)
+    res['spec_lemmas_retried'] = retried
     res['failures'] = failures
     res['hard_errors'] = hard[:20]
     vr = res['verus_results']
